@@ -5,6 +5,7 @@ import (
 
 	abci "github.com/cometbft/cometbft/abci/types"
 
+	sdk "github.com/cosmos/cosmos-sdk/types"
 	stakingtypes "github.com/cosmos/cosmos-sdk/x/staking/types"
 
 	providertypes "github.com/cosmos/interchain-security/v7/x/ccv/provider/types"
@@ -21,6 +22,7 @@ type downPlan struct {
 func (w *World) installSlashHooks() {
 	plans := map[string]*downPlan{}
 	hostileBudget := map[string]int{}
+	everJailed := map[string]bool{}
 	w.consumerExtra = func(l *Link) ([]TxSpec, *BlockOpts) {
 		c := l.C
 		ci := w.Shadow.ByID[l.CID]
@@ -30,8 +32,25 @@ func (w *World) installSlashHooks() {
 		opts := &BlockOpts{Absent: map[string]bool{}}
 		p := plans[l.CID]
 		if p == nil || p.remaining <= 0 {
+			for _, sv := range w.StakingSnapshot(w.P.Ctx()) {
+				if sv.Jailed {
+					everJailed[consHex(sv.ConsAddr)] = true
+				}
+			}
 			if w.Rnd.Intn(5) == 0 && len(c.PrevVals.Validators) > 1 {
 				v := c.PrevVals.Validators[w.Rnd.Intn(len(c.PrevVals.Validators))]
+				if w.Rnd.Intn(2) == 0 {
+					// prefer a validator that was jailed before and is back in the set (its staking record still carries the
+					// unbonding height / time of the earlier episode)
+					for _, cv := range c.PrevVals.Validators {
+						pa := w.P.PApp.ProviderKeeper.GetProviderAddrFromConsumerAddr(w.P.Ctx(), l.CID, providertypes.NewConsumerConsAddress(sdk.ConsAddress(cv.Address)))
+						if everJailed[consHex(pa.ToSdkConsAddr())] {
+							v = cv
+							w.Event("C08", "downtime-planned-for-a-validator-jailed-before")
+							break
+						}
+					}
+				}
 				p = &downPlan{addr: v.Address.String(), remaining: 4 + w.Rnd.Intn(4)}
 				plans[l.CID] = p
 				w.Op("downtime on %s: %s for %d blocks", l.CID, w.keyName(v.Address), p.remaining)
